@@ -24,10 +24,10 @@ TRUSTED = [
 ]
 ASSUMPTIONS = ['bases are normalised absolute http(s) URIs without fragment (the property\'s quantifier)']
 RULE = ('bases: normalised http(s) URIs with/without path, trailing slash, query; references: scheme-qualified, network-path, absolute-path, relative-path over '
-	'{".", "..", "", "g", "a.b", "...", segments with an encoded slash in either letter case next to dots}, query-only, fragment-only, empty; non-trivial = result differs from both base and reference text; distinct by result')
+	'{".", "..", "", "g", "a.b", "...", segments with an encoded slash in either letter case next to dots, escapes with hex digits in mixed case}; network-path references also handed to join() as URI object / tuple / keywords with the host in upper case, query-only, fragment-only, empty; non-trivial = result differs from both base and reference text; distinct by result')
 
 BASES = [u'http://a/b/c/d;p?q', u'http://a/b/c/d', u'http://a/b/c/', u'http://a', u'http://a/', u'https://h.example/x', u'http://a/b?x=1', u'https://u:p@h:8443/p/q/r', u'http://a/b/c/d/e/f/']
-RSEGS = [u'.', u'..', u'', u'g', u'a.b', u'...', u'h', u'g', u'h', u'x:', u'http:', u'a:b', u'@', u'a@b', u'x%2F..', u'%2F..', u'g%2Fh', u'y%2f..', u'..%2F', u'%2f']
+RSEGS = [u'.', u'..', u'', u'g', u'a.b', u'...', u'h', u'g', u'h', u'x:', u'http:', u'a:b', u'@', u'a@b', u'x%2F..', u'%2F..', u'g%2Fh', u'y%2f..', u'..%2F', u'%2f', u'%cE%bB', u'%c3%Ab', u'%Ce%Bb.x']
 RFC_EXAMPLES = [u'g:h', u'g', u'./g', u'g/', u'/g', u'//g', u'?y', u'g?y', u'#s', u'g#s', u'g?y#s', u';x', u'g;x', u'g;x?y#s', u'', u'.', u'./', u'..', u'../', u'../g', u'../..', u'../../', u'../../g',
 	u'../../../g', u'../../../../g', u'/./g', u'/../g', u'g.', u'.g', u'g..', u'..g', u'./../g', u'./g/.', u'g/./h', u'g/../h', u'g;x=1/./y', u'g;x=1/../y', u'g?y/./x', u'g#s/./x', u'http:g', u'HTTP://X/./y']
 
@@ -127,6 +127,21 @@ def oracle(case):
 			return bytes(u).decode('latin-1')
 		except Exception as e:  # F15: hosts with empty/over-long labels cannot be composed; compare tuples only
 			return 'compose raised %s' % exc_name(e)
+	# the other ways of handing the reference to join(): a URI object, its tuple, keywords - host in upper case (the parsed form is lower case)
+	try:
+		from httoop.uri import URI
+		r = URI(ref.encode())
+		t = r.tuple
+		if r.host:
+			t2 = t[:3] + (r.host.upper(),) + t[4:]
+			names = ('scheme', 'username', 'password', 'host', 'port', 'path', 'query_string', 'fragment')
+			for how, res in (('URI object', lambda: URI(base.encode()).join(URI(t2))), ('tuple', lambda: URI(base.encode()).join(t2)), ('keywords', lambda: URI(base.encode()).join(**{k: v for k, v in zip(names, t2) if v}))):
+				other = res()
+				if other.tuple != got.tuple:
+					return {'what': 'join() given the reference as %s (host in upper case) gives %r, given as text %r' % (how, other.tuple, got.tuple), 'base': base, 'ref': ref, 'finding': None}
+	except Exception as e:
+		if not (exc_name(e) == 'InvalidURI'):
+			return {'what': 'join() with the reference as an object raised %s: %s' % (exc_name(e), e), 'base': base, 'ref': ref, 'finding': None}
 	# the segments, read off the RFC result without the library's parser: an encoded slash stays inside its segment
 	import re as _re
 	from urllib.parse import unquote as _unq
